@@ -151,6 +151,8 @@ type ResultInfo struct {
 	Version          string `json:"version"`
 	LastBlockHeight  int64  `json:"last_block_height"`
 	LastBlockAppHash []byte `json:"last_block_app_hash"`
+	// ReceiptsHash returned by the application's commit of LastBlockHeight (empty if the application does not record it)
+	LastBlockReceiptsHash []byte `json:"last_block_receipts_hash"`
 }
 
 type ResultQuery struct {
